@@ -54,7 +54,7 @@ def expected(sc, spec_lists):
 def judge(ck, sc, res):
     msgs = [(m["m"], m["k"], sc["size"][i]) for i, m in enumerate(sc["msgs"])]
     rp = {"msgs": sc["msgs"], "size": sc["size"], "delivered": sc["delivered"], "echoed": sc["echoed"], "observed": res,
-          "pipelined": sc.get("pipelined", False)}
+          "pipelined": sc.get("pipelined", False), "ends": sc.get("ends")}
     if res.get("error"):
         raise lib.Infra("scenario %s: %s" % (sc["id"], res["error"]))
     if res.get("stray"):
@@ -80,6 +80,22 @@ def judge(ck, sc, res):
             ck.disagree("agent/written-bytes-differ", "messages %s: agent received %d bytes tagged with connection %s, specification %d" % (
                 msgs, len(got_e) // 2, k, len(exp_e[k]) // 2), rp)
             return
+    # an end-of-stream message or the agent going away ends exactly the affected connections
+    ends = sc.get("ends")
+    if ends is not None:
+        quitters = {str(m["k"]) for m in sc["msgs"] if m["m"] == "quit"}          # these services close by themselves
+        for k, must in enumerate(ends, 1):
+            k = str(k)
+            if k in quitters or k not in (res.get("done") or {}):
+                continue
+            if must and not res["done"][k]:
+                ck.disagree("agent/connection-not-ended", "messages %s: the service of connection %s never saw the end of its stream "
+                            "(2 s after the %s)" % (msgs, k, "agent went away" if sc["msgs"][-1]["m"] == "disconnect" else "end-of-stream message"), rp)
+                return
+            if not must and res["done"][k]:
+                ck.disagree("agent/connection-ended-without-cause", "messages %s: the service of connection %s saw the end of its stream although "
+                            "neither an end-of-stream message for it nor a disconnect was sent" % (msgs, k), rp)
+                return
 
 
 def run(tier, lab):
@@ -92,17 +108,32 @@ def run(tier, lab):
     rd = lib.tlc("MC_AgentMux", timeout=300, constants={"Devs": '{"stale_entry_shadows"}', "NKeys": "2", "MaxMsgs": "5"}, want_scn=False)
     if rd.violated != "Inv":
         raise lib.Infra("deviation stale_entry_shadows does not violate NoLossWhileOpen in the model")
-    r2 = lib.tlc("MC_AgentMux", timeout=300, constants={"Devs": "{}", "NKeys": "3", "MaxMsgs": "9"}, simulate=30 if tier == "quick" else 400,
-                 depth=12, tlc_seed=lib.seed(), workers=8)
+    rt = lib.tlc("MC_AgentMux", timeout=300, constants={"Devs": '{"teardown_skips"}', "NKeys": "2", "MaxMsgs": "5"}, want_scn=False)
+    if rt.violated != "Inv":
+        raise lib.Infra("deviation teardown_skips does not violate AllEndedWhenGone in the model")
+    r2 = lib.tlc("MC_AgentMux", timeout=300, constants={"Devs": "{}", "NKeys": "4", "MaxMsgs": "10"}, simulate=30 if tier == "quick" else 400,
+                 depth=13, tlc_seed=lib.seed(), workers=8)
     lib.tlc_must_pass(r2, "AgentMux simulate")
-    ck.add_tlc(r2, "AgentMux: sequences of <= 9 messages over 3 connections (-simulate)")
+    ck.add_tlc(r2, "AgentMux: sequences of <= 10 messages over 4 connections, the agent going away included (-simulate)")
     uniq = {json.dumps(s["msgs"]): s for s in r1.scn + r2.scn}
     pool = list(uniq.values())
     pick = pool if tier == "thorough" else rng.sample(pool, min(300, len(pool)))
     scs = []
     for s in pick:
         size = [rng.choice([1, 8, 8, 1000, 4000]) if m["m"] in ("data", "quit") else 0 for m in s["msgs"]]
-        scs.append({"id": len(scs), "msgs": s["msgs"], "size": size, "delivered": s["delivered"], "echoed": s["echoed"]})
+        scs.append({"id": len(scs), "msgs": s["msgs"], "size": size, "delivered": s["delivered"], "echoed": s["echoed"], "ends": s.get("ends")})
+    # the agent goes away with 1..8 connections open (some of them already ended by an end-of-stream message)
+    for nk in range(1, 9):
+        for eofs in ([], [2], [1, nk]):
+            msgs = [{"m": "hello", "k": k, "n": 0} for k in range(1, nk + 1)]
+            gens = [[] for _ in range(nk)]
+            for k in range(1, nk + 1):
+                msgs.append({"m": "data", "k": k, "n": len(msgs) + 1})
+                gens[k - 1].append({"k": k, "n": msgs[-1]["n"]})
+            msgs += [{"m": "eof", "k": k, "n": 0} for k in sorted(set(eofs)) if k <= nk]
+            msgs.append({"m": "disconnect", "k": 0, "n": 0})
+            scs.append({"id": len(scs), "msgs": msgs, "size": [8 if m["m"] == "data" else 0 for m in msgs], "delivered": gens, "echoed": gens,
+                        "ends": [True] * nk})
     # large payloads around the buffered reader's size (one connection, one data message)
     for big in (4075, 4076, 4077, 4096, 5000, 20000, 65000):
         msgs = [{"m": "hello", "k": 1, "n": 0}, {"m": "data", "k": 1, "n": 2}]
@@ -169,7 +200,7 @@ def replay(lab, path):
         codec_part(ck, lab)
     else:
         sc = {"id": 0, "msgs": rp["msgs"], "size": rp["size"], "delivered": rp["delivered"], "echoed": rp["echoed"],
-              "pipelined": rp.get("pipelined", False)}
+              "pipelined": rp.get("pipelined", False), "ends": rp.get("ends")}
         res = lib.run_sharded(lab, "c16", [{"id": 0, "msgs": sc["msgs"], "size": sc["size"], "pipelined": sc["pipelined"]}], shards=1,
                               extra_args=["-port", str(free_port()), "-par", "1"], timeout=600)[0]
         print(json.dumps(res)[:1500])
